@@ -115,11 +115,62 @@ fn run_case<T: Elem>(case: u64, args: &Args, ev: &mut Ev, log: &mut EventLog) {
     });
 }
 
+/// The query is another view of the buffer that holds the axis: same first element and same
+/// length as the axis view, different stride (a decimated series interpolated back onto its
+/// first samples). The values are judged by the exact oracle like every other case.
+fn aliased_case(case: u64, args: &Args, ev: &mut Ev, log: &mut EventLog) {
+    use vh::ndarray::{s, Array1, Array2};
+    use vh::ndarray_interp::interp1d::{Interp1D, Linear};
+    let mut rng = Rng::derive(args.seed, "C01-aliased", &[case]);
+    let n = 3 + rng.below(8);
+    let (sa, sq) = *rng.pick(&[(2usize, 1usize), (3, 1), (3, 2)]);
+    let mut pos = rng.irange(-40, 40) as f64 * 0.125;
+    let t: Array1<f64> = (0..sa * n)
+        .map(|_| {
+            let v = pos;
+            pos += 0.125 * (1 + rng.below(9)) as f64 + if rng.chance(0.5) { rng.f01() } else { 0.0 };
+            v
+        })
+        .collect();
+    let lanes = 1 + rng.below(2);
+    let data: Array2<f64> = Array2::from_shape_fn((n, lanes), |_| rng.f01() * 64.0 - 32.0);
+    let axis = t.slice(s![..sa * (n - 1) + 1;sa]);
+    let query = t.slice(s![..sq * (n - 1) + 1;sq]);
+    assert!(axis.len() == n && query.len() == n && std::ptr::eq(axis.as_ptr(), query.as_ptr()));
+    let shared = case % 2 == 0;
+    let res: Result<Vec<f64>, String> = vh::outcome::guard(|| {
+        if shared {
+            let ts = t.clone().into_shared();
+            let i = Interp1D::builder(data.view()).x(ts.clone().slice_move(s![..sa * (n - 1) + 1;sa])).strategy(Linear::new()).build().unwrap();
+            i.interp_array(&ts.slice(s![..sq * (n - 1) + 1;sq])).unwrap().iter().copied().collect()
+        } else {
+            let i = Interp1D::builder(data.view()).x(axis).strategy(Linear::new()).build().unwrap();
+            i.interp_array(&query).unwrap().iter().copied().collect()
+        }
+    });
+    let spec = Spec1::new(data.clone().into_dyn(), Some(axis.to_owned()), Strat1::Linear { extrapolate: false });
+    ev.case(hash_bits(&[&bits_of(&t.to_vec())], &["aliased", &format!("{sa}/{sq}/{lanes}")]), true);
+    ev.count("axis_class", "query-aliases-axis-buffer");
+    ev.count("elem", "f64");
+    ev.count("entry", "interp_array");
+    match res {
+        Err(p) => ev.violation("C01:in-range-query-not-answered", &format!("query view of the axis buffer (axis stride {sa}, query stride {sq}): {p}"), case, spec1_json(&spec)),
+        Ok(r) => {
+            let used: Vec<f64> = query.to_vec();
+            ev.add("queries", used.len() as u64);
+            ev.add("values", r.len() as u64);
+            log.push(&event1("C01", case, &spec, &used, &r, "interp_array(query aliases the axis buffer)", &["line"]));
+        }
+    }
+}
+
 fn main() {
     let args = Args::parse("C01");
     let n = args.budget(1500, 400000);
     let ev = run_sharded(&args, n, |case, ev, log| {
-        if case % 4 == 3 {
+        if case % 25 == 6 {
+            aliased_case(case, &args, ev, log)
+        } else if case % 4 == 3 {
             run_case::<f32>(case, &args, ev, log)
         } else {
             run_case::<f64>(case, &args, ev, log)
